@@ -101,6 +101,10 @@ def main(argv=None):
                 validated += 1
                 if len(samples) < 6:
                     one = wsc["multi"][0] if "multi" in wsc else wsc
+                    if one.get("kind") == "kernel":
+                        samples.append(dict(obligation=name, kernel_inputs={k: one.get(k) for k in ("which", "rows", "when", "pruned", "blur")},
+                                            real_result=obs["obs"]))
+                        continue
                     if one.get("kind") == "db":
                         samples.append(dict(obligation=name, db_scenario={k: one.get(k) for k in ("name", "entry", "crash_at")},
                                             real_observation=obs["obs"][:6]))
@@ -193,6 +197,11 @@ def confirm(real, pid, obname, f, write=True):
         json.dump(dict(property=pid, obligation=obname, assertion=f["assertion"], replay=sc,
                        real_observation=obs), open(path, "w"), indent=1, default=str)
     one = sc["multi"][-1] if "multi" in sc else sc
+    if one.get("kind") == "kernel":
+        return dict(status="confirmed", replay=path, assertion=f["assertion"], obligation=obname,
+                    summary="_summarize_%s(rows=%s, when=%s, pruned=%s, blur=%s) -> %s" % (
+                        one["which"], json.dumps(one["rows"])[:200], one["when"], one["pruned"], one["blur"],
+                        json.dumps(obs["obs"])[:200]))
     if one.get("kind") == "db":
         return dict(status="confirmed", replay=path, assertion=f["assertion"], obligation=obname,
                     summary="%s(%s) initial=%s crash_at=%s -> observed %s" % (
